@@ -676,6 +676,8 @@ func Span(dst []complex128, l, u complex128) []complex128 {
 	for i := range dst {
 		dst[i] = l + step*complex(float64(i), 0)
 	}
+	// step*(n-1) may not reproduce u-l exactly.
+	dst[n-1] = u
 	return dst
 }
 
